@@ -330,7 +330,7 @@ fn sweep_parquet_dict(ctx: &Ctx) -> R {
     let ncols = 1 + ctx.below(2, "c08.dict.cols");
     let fields: Vec<Field> = (0..ncols)
         .map(|i| {
-            let k = ctx.pick(&[DataType::Int8, DataType::Int16, DataType::UInt8, DataType::Int32, DataType::UInt16], "c08.dict.key").clone();
+            let k = ctx.pick(&[DataType::Int8, DataType::Int16, DataType::Int8, DataType::UInt8, DataType::Int32, DataType::Int8, DataType::UInt16], "c08.dict.key").clone();
             let v = ctx.pick(&[DataType::Utf8, DataType::Binary, DataType::LargeUtf8, DataType::LargeBinary], "c08.dict.val").clone();
             Field::new(format!("c{i}"), DataType::Dictionary(Box::new(k), Box::new(v)), ctx.chance(3, 4, "c08.dict.nullable"))
         })
@@ -352,6 +352,10 @@ fn sweep_parquet_dict(ctx: &Ctx) -> R {
     cfg.dict = true;
     cfg.enc_salt = 0;
     cfg.page_index = false;
+    if ctx.chance(2, 3, "c08.dict.uncompressed") {
+        // a damaged byte of a compressed page mostly ends in the codec; uncompressed pages expose the index stream
+        cfg.codec = 0;
+    }
     sweep_fmt(ctx, &PqFmt { wl, cfg, flush_after: vec![] }, "parquet.reader", 2500, 3)
 }
 
